@@ -125,6 +125,7 @@ func runAdmissionWL(e *Env) {
 	}
 	o := NewOpSim(e, hooks)
 	realHooks := e.CfgIs("real", "1")
+	forC04 := e.CfgIs("prop", "C04")
 	if realHooks {
 		o.UseRealHooks() // real bash processes: exit codes and deaths by signal are the real thing
 	}
@@ -204,6 +205,10 @@ func runAdmissionWL(e *Env) {
 	o.Behave = func(x *Exec) {
 		x.Dur = time.Duration(wl.Choose(3)) * 100 * time.Millisecond
 		if !isWebhookExec(x) {
+			if forC04 && len(x.Ctxs) > 0 && (x.Ctxs[0].Type == "Schedule" || x.Ctxs[0].Type == "Event") && wl.Choose(3) == 0 {
+				x.Fail = true // queued executions of a hook that also serves webhooks fail and wait for their retry
+				simrt.Count("fault:hook-failed")
+			}
 			return
 		}
 		r := byUID[uidOf(x)]
@@ -246,12 +251,18 @@ func runAdmissionWL(e *Env) {
 					if wl.Bias(1, 2) {
 						simrt.Sleep(time.Duration(1+wl.Choose(5)) * 150 * time.Millisecond)
 					}
+					if forC04 {
+						simrt.Sleep(time.Duration(wl.Choose(40)) * 100 * time.Millisecond) // requests spread over the back-offs of failed tasks
+					}
 					req := httptest.NewRequest(http.MethodPost, r.Path, bytes.NewBufferString(r.Body))
 					req.Header.Set("Content-Type", "application/json")
 					rec := httptest.NewRecorder()
 					o.Op.AdmissionWebhookManager.Handler.Router.ServeHTTP(rec, req)
 					r.Code, r.RespBody = rec.Code, rec.Body.String()
 					simrt.Logf("admission %s %s -> %d %s", r.UID, r.Path, r.Code, strings.TrimSpace(r.RespBody))
+				}
+				if forC04 {
+					simrt.Sleep(7 * time.Second) // long enough to see the retry of a task that failed last
 				}
 				clientsDone++
 			})
@@ -349,6 +360,10 @@ func runAdmissionWL(e *Env) {
 			}
 		}
 		oracleC09(&OpRun{e: e, o: o, sc: scenarioOf(hooks)})
+		if forC04 {
+			// a failed queued task keeps its place and its contexts while webhook requests for the same hook are served
+			oracleC04(&OpRun{e: e, o: o, sc: scenarioOf(hooks)})
+		}
 	}
 	if e.Detail {
 		var rs []string
